@@ -46,12 +46,13 @@ CHECKS = {
     },
     "C05": {
         "engine": "tlc-trace", "design_ref": "DESIGN.md 3.3, 7 C05",
-        "technique": "TLA+ canonical LR(1) reference (LR1.tla) walked in lock-step with every real LALR/SLR table (LRWalk.tla product states), TLC; termination by reference-derived state budget hook",
+        "technique": "TLA+ canonical LR(1) reference (LR1.tla) walked in lock-step with every real LALR/SLR table (LRWalk.tla product states), TLC; termination by reference-derived state budget hook; the construction itself as a TLA+ machine (LRBuild.tla) model-checked for every handling order (Bounded, Terminates under weak fairness, Faithful) and bound to the code by trace validation of recorded constructions (LRBuildTrace.tla)",
         "level": "Every real table of the explored grammar space is walked by TLC against the canonical LR(1) automaton: in each product state nothing valid is "
                  "missing, no reduction outside the LALR(1) lookahead / FOLLOW, no spurious shift; per table: construction terminates within 4*|LR(1)|+8 "
-                 "states, conflict reports agree with the multi-action cells.",
-        "note": "Trusted: TLC, the table projection (harness/real.table_json). Bounded: F(3,3), F(4,2), F(4,3) over 3 nonterminals sampled with fixed seeds, "
-                "seeded random grammars up to 8 productions; main and LAYOUT start productions; no claim beyond the bound.",
+                 "states, conflict reports agree with the multi-action cells. Every recorded real LALR construction is, event by event, a behaviour of the specified construction machine "
+                 "(same queue order, same merge / merge-other / split decisions, same final kernel lookaheads), which TLC proves bounded, terminating and faithful on small grammars for every handling order.",
+        "note": "Trusted: TLC, the table projection (harness/real.table_json), the construction recorder (harness/stage_build.BuildRecorder). Bounded: F(3,3), F(4,2), F(4,3) over 3 nonterminals sampled with fixed seeds, "
+                "idiom / epsilon-chain / n-context families, seeded random grammars up to 8 productions; main and LAYOUT start productions; no claim beyond the bound.",
     },
     "C06": {
         "engine": "tlc-trace", "design_ref": "DESIGN.md 3.9 Prec, 7 C06",
